@@ -19,7 +19,11 @@ func c02(c *ctx) {
 	var cases []*gcase
 	for i := 0; i < n; i++ {
 		var g *gram.Grammar
-		if i%4 == 3 {
+		if i%8 == 6 {
+			// shared prefixes / rules called from several alternatives of one rule (reference counting, inlining
+			// and the always-succeeds shortcut see the same rule more than once)
+			g = gram.Backtracky(r, []rune("abcdefgz"))
+		} else if i%4 == 3 {
 			p := gram.AllOps()
 			p.AltMin, p.AltMax, p.WAlt, p.MultiRef = 3, 7, 9, i%8 == 3
 			g = gram.Random(r, p)
